@@ -97,11 +97,16 @@ pub fn child_main(prop: &str, tier: Tier, seed: u64, out: &Path, hb_dir: &Path, 
                         }
                         let case = (spec.generate)(tier, seed, idx);
                         st.cases += 1;
-                        if idx < 3 {
+                        if idx < 64 && st.samples.len() < 3 {
                             if let Ok(v) = serde_json::to_value(&case) {
                                 let s = v.to_string();
                                 if s.len() < 6000 {
                                     st.samples.push(v);
+                                } else if idx == 0 {
+                                    // very large first case: keep a readable cut of it so that the
+                                    // evidence always shows at least one explored case
+                                    let cut: String = s.chars().take(3000).collect();
+                                    st.samples.push(serde_json::json!({"truncated_case_json": cut, "full_length": s.len()}));
                                 }
                             }
                         }
